@@ -3,7 +3,7 @@
     [log_faithful]: what is compared is the fork-point version against the HEAD version, and a rule of the HEAD tree that
     is untouched relative to the fork point ends in state Noop, for ANY branch history. *)
 From Coq Require Import List String Ascii ZArith NArith Bool Lia Permutation.
-From PintV Require Import Common.Bytes Model.GitBranch Proofs.C03_match Proofs.C03_state Proofs.C03_merge Proofs.C03_final.
+From PintV Require Import Common.Bytes Model.GitBranch Proofs.C03_match Proofs.C03_state Proofs.C03_merge Proofs.C03_final Proofs.C03_skip.
 From PintV Require Model.GitChanges Proofs.C03_changes Proofs.C03_faithful.
 Import ListNotations.
 Open Scope string_scope.
@@ -138,5 +138,52 @@ Section History.
         - apply String.eqb_eq in E. rewrite (Hb2 E). apply parse_none.
         - apply String.eqb_neq in E. apply (Hb1 E). }
       rewrite Eb. auto.
+  Qed.
+
+  (** which record a HEAD entry at path p can come from: the most recent record for p, and it is not a deletion *)
+  Lemma head_entry_record ch a p : p <> "" ->
+    In ch changes -> In a (ci_after (cin (fin ch))) -> e_path a = p ->
+    GC.get_change_by_path changes p = Some ch /\ GC.ch_status ch <> GC.st "D" /\
+    ci_after (cin (fin ch)) = parse (enc (snap n p)) p /\ ci_before (cin (fin ch)) = base_rules ch.
+  Proof.
+    intros Hp Hch Ha Hpath.
+    assert (Ea : ci_after (cin (fin ch)) = parse (GC.f_body_after (fin ch)) (GC.ch_after ch)) by reflexivity.
+    rewrite Ea in Ha. pose proof (parse_path _ _ _ Ha) as Hq.
+    assert (Hafter : GC.ch_after ch = p) by congruence.
+    destruct (PC.member_is_observed _ _ Hch) as [k Hk]. rewrite Hafter in Hk.
+    pose proof (compared_versions p k ch Hp Hk) as Hcv. cbv zeta in Hcv. destruct Hcv as (Hb1 & Hb2 & Ha1 & Ha2).
+    pose proof (bodies_fork_and_head p k ch Hp Hk) as Hbo. cbv zeta in Hbo. destruct Hbo as (_ & Hnd & _).
+    destruct (Ascii.ascii_dec (GC.ch_status ch) (GC.st "D")) as [HD|HD].
+    - exfalso. rewrite Ea, Hafter in Ha2. rewrite Hafter in Ha. rewrite (Ha2 HD), parse_none in Ha. destruct Ha.
+    - destruct (Hnd HD) as [Hk0 _]. subst k. split; [rewrite PC.get_is_nth0; exact Hk|]. split; auto. split; [apply Ha1; exact HD|].
+      unfold base_rules. destruct (String.eqb (GC.ch_before ch) "") eqn:E.
+      + apply String.eqb_eq in E. rewrite (Hb2 E). apply parse_none.
+      + apply String.eqb_neq in E. apply (Hb1 E).
+  Qed.
+
+  (** ** changed => never skipped, for any faithful history *)
+  Theorem history_changed_not_noop (glob : list entry) (i : nat) (g : entry) (ch : GC.change) :
+    nth_error glob i = Some g -> first_at glob i g -> e_path g <> "" ->
+    GC.get_change_by_path changes (e_path g) = Some ch -> GC.ch_status ch <> GC.st "D" ->
+    (exists a, In a (parse (enc (snap n (e_path g))) (e_path g)) /\ is_same a g = true) ->
+    (forall a, In a (parse (enc (snap n (e_path g))) (e_path g)) -> is_same a g = true ->
+       forall b, In b (base_rules ch) -> is_identical a b = false) ->
+    exists g', nth_error (find glob history_changes) i = Some g' /\ strip g' = strip g /\
+               (e_state g' = Added \/ e_state g' = Modified \/ e_state g' = Moved).
+  Proof.
+    intros Hn Hf Hp Hget HD (a0 & Ha0 & Hs0) Hdiff.
+    assert (Hch : In ch changes).
+    { rewrite PC.get_is_nth0 in Hget. unfold PC.nth_by_path in Hget. apply nth_error_In in Hget.
+      apply filter_In in Hget. destruct Hget as [Hin _]. apply in_rev. exact Hin. }
+    assert (Hk : PC.nth_by_path changes (e_path g) 0 = Some ch) by (rewrite <- PC.get_is_nth0; exact Hget).
+    pose proof (compared_versions (e_path g) 0 ch Hp Hk) as Hcv. cbv zeta in Hcv. destruct Hcv as (_ & _ & Ha1 & _).
+    apply changed_final_not_noop; auto.
+    - exists (cin (fin ch)), a0. split; [unfold history_changes; apply (in_map (fun c => cin (fin c))); exact Hch|].
+      split; [rewrite (Ha1 HD); exact Ha0|]. split; auto. apply (parse_path _ _ _ Ha0).
+    - intros c a Hc Ha Hpath Hsame b Hb.
+      unfold history_changes in Hc. apply in_map_iff in Hc. destruct Hc as (ch' & <- & Hch').
+      destruct (head_entry_record ch' a (e_path g) Hp Hch' Ha Hpath) as (Hget' & _ & Eaft & Ebef).
+      assert (ch' = ch) by congruence. subst ch'.
+      rewrite Eaft in Ha. rewrite Ebef in Hb. apply (Hdiff a Ha Hsame b Hb).
   Qed.
 End History.
